@@ -265,10 +265,12 @@ def par_convert(args, prog):
             # substitute SF symbolic parameter objects for Blackbird ones
             s = {}
             for k in a.atoms(sympy.Symbol):
-                if k.name[0] == "q":
+                # Blackbird notation for a measured parameter: "q" followed by the subsystem index
+                if re.fullmatch(r"q[0-9]+", k.name):
                     s[k] = MeasuredParameter(prog.register[int(k.name[1:])])
                 else:
-                    s[k] = prog.params(k.name)  # free parameter
+                    # free parameter (its name may start with a "q", e.g., "q_factor")
+                    s[k] = prog.params(k.name)
             return a.subs(s)
         return a  # return non-symbols as-is
 
